@@ -1,4 +1,5 @@
 import TinyFlux.Audit.Tool
 import TinyFlux.Props.C11
 import TinyFlux.Props.C11State
+import TinyFlux.Props.C11Witness
 #audit TinyFlux.Props.C11
